@@ -280,6 +280,8 @@ def gen_scalar_problem(rng, kind="fee", axi=None, units=None, size_nodes=60, all
         picked[rng.randrange(4)] = "fix1"
     if axi and x0 == 0.0:
         picked[3] = None                     # the axis
+        if not any(c in ("fix1", "fix2", "cfix") for c in picked):
+            picked[1] = "fix1"               # (the axis took the only prescribed side: keep the problem well posed)
     for nm, c in zip("brtl", picked):
         if c == "cfix":
             sides[nm] = dict(cond=c_fixed)
@@ -359,7 +361,8 @@ def gen_scalar_problem(rng, kind="fee", axi=None, units=None, size_nodes=60, all
         if is_source and rng.random() < 0.6:
             p["points"][rng.randrange(4)]["prop"] = pp
             feats.append("point-on-outer-corner")
-        if is_source and ("box:cfix" in feats or "box:cfloat" in feats or "box:hole-fix" in feats):
+        # (not on a floating conductor: a source on a conductor whose total flow is prescribed is ambiguous input)
+        if is_source and ("box:cfix" in feats or "box:hole-fix" in feats):
             if rng.random() < 0.6:
                 p["points"][-2 - rng.randrange(4)]["prop"] = pp
                 feats.append("point-on-box-corner")
